@@ -353,6 +353,14 @@ Proof.
   unfold gate_at. intros H. destruct (Nat.lt_ge_cases j (length (gates s))) as [L|L]; [exact L|].
   rewrite nth_overflow in H by exact L. destruct i; discriminate.
 Qed.
+Lemma g_res_nth_upd (f : gate -> gate) j k l : (forall g, g_res (f g) = g_res g) -> g_res (nth k (upd_nth j f l) dflt_gate) = g_res (nth k l dflt_gate).
+Proof.
+  intros E. revert j k; induction l as [|a l IH]; intros [|j] [|k]; cbn; auto.
+Qed.
+Lemma g_out_nth_upd (f : gate -> gate) j k l : (forall g, g_out (f g) = g_out g) -> g_out (nth k (upd_nth j f l) dflt_gate) = g_out (nth k l dflt_gate).
+Proof.
+  intros E. revert j k; induction l as [|a l IH]; intros [|j] [|k]; cbn; auto.
+Qed.
 Lemma logw_cons m e l : logw m (e :: l) = me m e + logw m l.
 Proof. reflexivity. Qed.
 Lemma stackw_cons m f r : stackw m (f :: r) = mf m f + stackw m r.
@@ -427,7 +435,7 @@ Ltac step_cases H th :=
 
 (* expose the components of a measure's total after a transition *)
 Ltac mnorm :=
-  unfold shw, gate_at, gate_enq, upd_gate, push, w_stack, w_depth, w_unw, destroy_pipes;
+  unfold shw, skip_event, gate_at, gate_enq, upd_gate, push, w_stack, w_depth, w_unw, destroy_pipes;
   cbn [gates bag log pout exc canceled compl gnext done result bprods stack depth unw is_pool
        w_gates w_bag w_pout w_exc w_canceled w_compl w_gnext w_done w_result add_log];
   repeat rewrite ?bagw_app, ?gatesw_upd_res, ?gatesw_upd_out, ?logw_cons, ?stackw_cons.
@@ -440,8 +448,15 @@ Definition wf_frame (c : cfg) (f : frame) : Prop :=
   | FMain (MExec g) => 0 <= g <= ninst c
   | FMain (MWait j _ _) => (j < nstages c)%nat
   | FGen (GSched _ _) => (0 < nstages c)%nat
-  | FTask lim j _ pc _ => (j < nstages c)%nat /\ (lim = false -> unlimited c j = true) /\
-                          (match pc with TSched _ => (S j < nstages c)%nat | _ => True end)
+  | FTask lim j _ pc a => (j < nstages c)%nat /\ (lim = false -> unlimited c j = true) /\
+                          (match pc with TSched _ => (S j < nstages c)%nat | _ => True end) /\
+                          (* which program points a limited / an unlimited task visits, and when the ResourceGuard is armed *)
+                          (match pc with
+                           | TUExc => lim = false
+                           | TBody => a = lim
+                           | TCbDeq | TCbAdd | TRGuard | TCatchCas _ | TCancel => lim = true
+                           | _ => True end) /\
+                          (match pc with TUExc | TCbDeq | TCbAdd | TNext | TSched _ | TOGuard => a = false | _ => True end)
   | FPool tk _ => wf_task c tk
   | _ => True
   end.
@@ -491,7 +506,7 @@ Ltac wf_solve WB :=
   | Hn : nth_error _ _ = Some (_, ?tk) |- wf_task _ ?tk => exact (Forall_nth_error _ _ _ _ WB Hn)
   | |- wf_frame _ _ => cbn
   | |- wf_task _ _ => cbn
-  end; bool_hyps; cbn [gates bag snd] in *; try assumption; try lia; auto.
+  end; bool_hyps; cbn [gates bag snd] in *; try assumption; try lia; try congruence; auto.
 
 Lemma wf_local c t s th ch s1 th1 ch1 site wake :
   (0 < nstages c)%nat -> wf_shared c s -> wf_thread c th ->
@@ -530,4 +545,97 @@ Lemma WF_reach c s : (0 < nstages c)%nat -> reach (mstep c) (init c) s -> WF c s
 Proof.
   intros H0 R. apply (reach_inv (mstep c) (WF c) (init c)); [apply WF_init | | exact R].
   intros s1 t ch s1' ch' site I E. eapply WF_mstep; eauto.
+Qed.
+
+(* the scalar fields are untouched by the stranding of the queues *)
+Lemma strand_q_scalars t j q s :
+  pout (strand_q t j q s) = pout s /\ exc (strand_q t j q s) = exc s /\ canceled (strand_q t j q s) = canceled s /\
+  compl (strand_q t j q s) = compl s /\ gnext (strand_q t j q s) = gnext s /\ done (strand_q t j q s) = done s /\
+  result (strand_q t j q s) = result s.
+Proof. revert s; induction q as [|[p it] q IH]; intros s; cbn; [repeat split|]. destruct (IH (add_log s (ev t 11 (Z.of_nat j) it))) as (A & B & C & D & E & F & G). repeat split; assumption. Qed.
+Lemma strand_gates_scalars t j gs s :
+  pout (strand_gates t j gs s) = pout s /\ exc (strand_gates t j gs s) = exc s /\ canceled (strand_gates t j gs s) = canceled s /\
+  compl (strand_gates t j gs s) = compl s /\ gnext (strand_gates t j gs s) = gnext s /\ done (strand_gates t j gs s) = done s /\
+  result (strand_gates t j gs s) = result s.
+Proof.
+  revert j s; induction gs as [|g r IH]; intros j s; cbn; [repeat split|].
+  destruct (IH (S j) (strand_q t j (g_q g) s)) as (A & B & C & D & E & F & G).
+  destruct (strand_q_scalars t j (g_q g) s) as (A' & B' & C' & D' & E' & F' & G').
+  repeat split; congruence.
+Qed.
+Lemma strand_gates_pout t j gs s : pout (strand_gates t j gs s) = pout s. Proof. apply strand_gates_scalars. Qed.
+Lemma strand_gates_exc t j gs s : exc (strand_gates t j gs s) = exc s. Proof. apply strand_gates_scalars. Qed.
+Lemma strand_gates_canceled t j gs s : canceled (strand_gates t j gs s) = canceled s. Proof. apply strand_gates_scalars. Qed.
+Lemma strand_gates_compl t j gs s : compl (strand_gates t j gs s) = compl s. Proof. apply strand_gates_scalars. Qed.
+Lemma strand_gates_gnext t j gs s : gnext (strand_gates t j gs s) = gnext s. Proof. apply strand_gates_scalars. Qed.
+Lemma strand_gates_done t j gs s : done (strand_gates t j gs s) = done s. Proof. apply strand_gates_scalars. Qed.
+Lemma strand_gates_result t j gs s : result (strand_gates t j gs s) = result s. Proof. apply strand_gates_scalars. Qed.
+
+(* ---------- accounting toolkit ---------- *)
+Definition bz (b : bool) : Z := if b then 1 else 0.
+Lemma bz_nonneg b : 0 <= bz b. Proof. destruct b; cbn; lia. Qed.
+
+(* change of a measure as seen by the stepping thread *)
+Definition dlt (m : meas) (s : shared) (th : thread) (s1 : shared) (th1 : thread) : Z :=
+  (shw m s1 + stackw m (stack th1)) - (shw m s + stackw m (stack th)).
+
+Lemma total_step m ths t th s0 s1 th1 (wake : bool) :
+  mf m (FMain MBlocked) = mf m (FMain MWoken) -> nth_error ths t = Some th ->
+  total m (ST s1 (set_nth (if wake then wake_all ths else ths) t th1)) - total m (ST s0 ths) = dlt m s0 th s1 th1.
+Proof.
+  intros E N. unfold total, dlt; cbn [sh threads].
+  assert (T : thsw m (set_nth (if wake then wake_all ths else ths) t th1) = thsw m ths - stackw m (stack th) + stackw m (stack th1)).
+  { unfold thsw. destruct wake.
+    - rewrite (sumf_set_nth _ _ _ (wake1 th) th1) by (apply nth_error_wake; exact N).
+      fold (thsw m (wake_all ths)). rewrite (thsw_wake m _ E). rewrite (stackw_wake1 m th E). reflexivity.
+    - rewrite (sumf_set_nth _ _ _ th th1) by exact N. reflexivity. }
+  rewrite T. lia.
+Qed.
+
+Lemma gatesw_zero m k gs : (forall j x, mq m j x = 0) -> gatesw m k gs = 0.
+Proof. intros Z0. revert k; induction gs as [|g r IH]; intros k; cbn; [reflexivity|]. rewrite IH. unfold qw. rewrite sumf_zero; [reflexivity | intros; apply Z0]. Qed.
+Lemma zof_eqb a b : (Z.of_nat a =? Z.of_nat b) = Nat.eqb a b.
+Proof. destruct (Z.eqb_spec (Z.of_nat a) (Z.of_nat b)), (Nat.eqb_spec a b); try reflexivity; lia. Qed.
+Lemma g_res_nth_emptied k l : g_res (nth k (map (fun g => g_w_q [] (g_prods g) g) l) dflt_gate) = g_res (nth k l dflt_gate).
+Proof. revert k; induction l as [|a l IH]; intros [|k]; cbn; auto. Qed.
+Lemma g_out_nth_emptied k l : g_out (nth k (map (fun g => g_w_q [] (g_prods g) g) l) dflt_gate) = g_out (nth k l dflt_gate).
+Proof. revert k; induction l as [|a l IH]; intros [|k]; cbn; auto. Qed.
+
+(* program-point classes used by the measures *)
+Definition tok_pc (pc : tpc) (armed : bool) : bool :=      (* a limited task holds its stage's slot *)
+  match pc with TBody | TCbDeq | TCbAdd | TRGuard => true | TCatchCas _ | TCancel => armed | _ => false end.
+Definition wait_holds (pc : wpc) : bool := match pc with WDDec | WSub | WAdd | WExc2 | WDec2 => true | _ => false end.
+Definition sched_pre (pc : spc) : bool := match pc with SOinc | SEnq => true | _ => false end.   (* item not yet in the queue / bag *)
+Definition post_pc (pc : tpc) : bool := match pc with TBody | TCbDeq | TCbAdd | TNext => true | _ => false end.
+Definition gen_live (pc : gpc) : bool := match pc with GNStore | GNWake => false | _ => true end.
+
+Ltac wsimp := cbn [bz andb orb negb g_res g_out g_q g_prods g_w_res g_w_out g_w_q fst snd e_kind e_j e_tag e_val e_tid ev zj
+                   tok_pc wait_holds sched_pre post_pc gen_live].
+Ltac eqb_cases :=
+  wsimp; rewrite ?zof_eqb, ?Z.eqb_refl;
+  repeat (wsimp; match goal with
+  | |- context [Nat.eqb ?a ?b] => destruct (Nat.eqb_spec a b); [try (exfalso; lia); try subst|]
+  | |- context [Z.eqb ?a ?b] => destruct (Z.eqb_spec a b); try (exfalso; lia)
+  end).
+Ltac acct_pre Hst :=
+  mnorm; rewrite ?Hst; rewrite ?stackw_cons; rewrite ?strand_gates_bag, ?logw_strand_gates, ?gatesw_emptied;
+  rewrite ?strand_gates_pout, ?strand_gates_exc, ?strand_gates_canceled, ?strand_gates_compl, ?strand_gates_gnext, ?strand_gates_done, ?strand_gates_result;
+  try (erewrite !bagw_rem by eassumption); unfold first_wait, after_wait, gate_at in *;
+  cbn [gates bag log pout exc canceled compl gnext done result w_gates w_exc w_result map]; rewrite ?g_res_nth_emptied, ?g_out_nth_emptied.
+Ltac nth_cases :=
+  rewrite ?g_res_nth_upd by reflexivity; rewrite ?g_out_nth_upd by reflexivity;
+  repeat match goal with
+  | |- context [nth ?k (upd_nth ?j _ _) _] =>
+      first [ rewrite (nth_upd_nth_same j) by (rewrite ?upd_nth_length; lia) | rewrite (nth_upd_nth_other j k) by congruence
+            | tryif constr_eq j k then fail else (destruct (Nat.eq_dec j k); [subst|]) ]
+  end.
+Ltac acct_fin :=
+  repeat match goal with |- context [match ?x with _ => _ end] => is_var x; destruct x end;
+  repeat match goal with |- context [if ?b then _ else _] => destruct b eqn:? end;
+  eqb_cases; wsimp; nth_cases; wsimp; bool_hyps; lia.
+
+Lemma sumf_le {A} (w1 w2 : A -> Z) l : (forall x, In x l -> w1 x <= w2 x) -> sumf w1 l <= sumf w2 l.
+Proof.
+  induction l as [|a l IH]; intros H; cbn; [lia|].
+  pose proof (H a (or_introl eq_refl)). assert (sumf w1 l <= sumf w2 l) by (apply IH; intros; apply H; right; assumption). lia.
 Qed.
